@@ -90,6 +90,26 @@ func checkURLLoose(id, kind string, ref registry.Reference) {
 	}
 }
 
+// splitObs: net/url's own parse of a built URL, compared with the model's RFC 3986 splitter
+func splitObs(u string) string {
+	pu, err := url.Parse(u)
+	if err != nil {
+		return "NOSPLIT"
+	}
+	opt := func(present bool, v string) string {
+		if !present {
+			return "none"
+		}
+		return "some:" + common.Hex(v)
+	}
+	split := fmt.Sprintf("SPLIT %s %s %s %s %s", common.Hex(pu.Scheme), common.Hex(pu.Host), common.Hex(pu.EscapedPath()),
+		opt(pu.RawQuery != "" || pu.ForceQuery, pu.RawQuery), opt(pu.Fragment != "" || strings.HasSuffix(u, "#"), pu.EscapedFragment()))
+	if pu.User != nil {
+		split += " USERINFO"
+	}
+	return split
+}
+
 func urlCase(kind string, plain bool, ref registry.Reference) {
 	id := run.NewID()
 	u := remote.VerifURL(kind, plain, ref)
@@ -97,21 +117,7 @@ func urlCase(kind string, plain bool, ref registry.Reference) {
 	if plain {
 		p = "1"
 	}
-	// net/url's own parse of the built URL, compared with the model's RFC 3986 splitter
-	split := "NOSPLIT"
-	if pu, err := url.Parse(u); err == nil {
-		opt := func(present bool, v string) string {
-			if !present {
-				return "none"
-			}
-			return "some:" + common.Hex(v)
-		}
-		split = fmt.Sprintf("SPLIT %s %s %s %s %s", common.Hex(pu.Scheme), common.Hex(pu.Host), common.Hex(pu.EscapedPath()),
-			opt(pu.RawQuery != "" || pu.ForceQuery, pu.RawQuery), opt(pu.Fragment != "" || strings.HasSuffix(u, "#"), pu.EscapedFragment()))
-		if pu.User != nil {
-			split += " USERINFO"
-		}
-	}
+	split := splitObs(u)
 	run.Case(id, fmt.Sprintf("U %s %s %s %s %s", kind, p, common.Hex(ref.Registry), common.Hex(ref.Repository), common.Hex(ref.Reference)),
 		"URL "+common.Hex(u)+" "+split)
 	run.Nontrivial("U:" + kind + p + ref.String())
@@ -150,14 +156,22 @@ func namesOtherRepository(base registry.Reference, s string) bool {
 // path must be exactly the slot and the query must decode to exactly the intended parameters.
 func queryURLCases(r *common.Rand) {
 	ats := []string{"application/vnd.example+type", "a b", "a&b=c", "x#y", "a?b", "\xc3\xa9", "%41", "a+b", "a/b;c=d", "=&", "application/vnd.oci.image.config.v1+json"}
-	for i := 0; i < run.Scale(1500, 30000); i++ {
+	for i := 0; i < run.Scale(6000, 100000); i++ {
 		ref, err := registry.ParseReference(randomValid(r))
 		if err != nil || registryVerdict(ref.Registry) != 1 {
 			continue
 		}
 		ref.Reference = randDigestValid(r)
 		if r.Bool() {
-			queryURLCase("referrers", r.Bool(), ref, common.Pick(r, ats))
+			at := common.Pick(r, ats)
+			if r.Bool() {
+				bs := make([]byte, r.Intn(12))
+				for i := range bs {
+					bs[i] = byte(r.Intn(256))
+				}
+				at = string(bs)
+			}
+			queryURLCase("referrers", r.Bool(), ref, at)
 		} else if from, err := registry.ParseReference(randomValid(r)); err == nil {
 			queryURLCase("mount", r.Bool(), ref, from.Repository)
 		}
@@ -174,13 +188,21 @@ func queryURLCase(kind string, plain bool, ref registry.Reference, arg string) {
 	if kind == "referrers" {
 		u = remote.VerifReferrersURL(plain, ref, arg)
 		wantPath = "/v2/" + ref.Repository + "/referrers/" + ref.Reference
-		want["artifactType"] = arg
+		if arg != "" { // an empty filter means "no filter": no query at all
+			want["artifactType"] = arg
+		}
 	} else {
 		u = remote.VerifMountURL(plain, ref, digest.Digest(ref.Reference), arg)
 		wantPath = "/v2/" + ref.Repository + "/blobs/uploads/"
 		want["mount"], want["from"] = ref.Reference, arg
 	}
 	rep := map[string]any{"op": "Q", "kind": kind, "plain": plain, "registry": ref.Registry, "repository": ref.Repository, "reference": ref.Reference, "input": arg}
+	pl := "0"
+	if plain {
+		pl = "1"
+	}
+	run.Case(id, fmt.Sprintf("Q %s %s %s %s %s %s", kind, pl, common.Hex(ref.Registry), common.Hex(ref.Repository), common.Hex(ref.Reference), common.Hex(arg)),
+		"URL "+common.Hex(u)+" "+splitObs(u))
 	pu, err := url.Parse(u)
 	if err != nil {
 		run.OracleFail(id, "url-query", fmt.Sprintf("%s URL %q of %+v does not parse: %v", kind, u, ref, err), rep)
@@ -332,9 +354,28 @@ func main() {
 		parseCase("localhost/a:_" + strings.Repeat("-", n-1))
 	}
 
+	// ValidateRegistry on its own: exhaustive over the characters that matter to net/url's
+	// authority parser, plus generated authorities (reg-names, ports, IP literals, zones,
+	// escapes, user-info, query / fragment / path intruders)
+	regLen := run.Scale(4, 5)
+	enumerate([]string{"a", "1", ".", ":", "[", "]", "%", "2", "5", "@", "?", "/", "#", "-", "\xc3", " ", "+", "f"}, regLen, registryCase)
+	run.Extra["registry_exhaustive_length"] = regLen
+	for i := 0; i < run.Scale(30000, 600000); i++ {
+		registryCase(randRegistry(r))
+	}
+	for c := 0; c < 256; c++ {
+		for _, t := range []string{"%s", "a%sb", "a:%s", "[%s]", "[::1%s]", "[::1]%s", "a%s:5"} {
+			registryCase(strings.ReplaceAll(t, "%s", string([]byte{byte(c)})))
+		}
+	}
+
 	// Reference.String() on arbitrary triples (valid and not)
 	for i := 0; i < run.Scale(5000, 100000); i++ {
-		ref := registry.Reference{Registry: common.Pick(r, []string{"localhost:5000", "docker.io", "", "h?q"}),
+		reg := common.Pick(r, []string{"localhost:5000", "docker.io", "", "h?q", "[::1]:5000", "a/b"})
+		if r.Chance(1, 3) {
+			reg = randRegistry(r)
+		}
+		ref := registry.Reference{Registry: reg,
 			Repository: common.Pick(r, []string{"a/b", "x", "", "Up"}),
 			Reference:  common.Pick(r, []string{"", "v1", randDigest(r), randJunk(r), common.Pick(r, digestPool)})}
 		formatCase(ref)
@@ -471,6 +512,97 @@ func main() {
 		}
 	}
 
+	// descriptor-driven operations (Fetch / Delete / Referrers / Mount / Push / Tags)
+	lasts := []string{"", "", "v1", "a b", "a&b=c", "x#y", "a?b", "\xc3\xa9", "%41", "a+b", "../x", "=&", strings.Repeat("t", 128)}
+	for _, base := range bases {
+		if !baseJudged(base) || strings.HasSuffix(base.Registry, ":") {
+			continue
+		}
+		for i := 0; i < run.Scale(1500, 30000); i++ {
+			op := common.Pick(r, descOpKinds)
+			d := randDigest(r)
+			if !okDigest(d) && (!cleanForURL(d) || r.Chance(2, 3)) {
+				d = randDigestValid(r)
+			}
+			a1 := common.Pick(r, lasts)
+			if r.Chance(1, 4) {
+				bs := make([]byte, r.Intn(10))
+				for i := range bs {
+					bs[i] = byte(r.Intn(256))
+				}
+				a1 = string(bs)
+			}
+			if op == "dmount" {
+				a1 = common.Pick(r, []string{"a", "library/x", "a__b/c.d", "x-y/z"})
+				if r.Chance(1, 6) {
+					a1 = common.Pick(r, []string{"a&mount=x", "Up", "a b", ""})
+				}
+			}
+			descOpCase(base, op, r.Bool(), d, a1, common.Pick(r, []int{0, 0, -1, 1, 50, 1000}))
+		}
+	}
+
+	// top-level oras.Tag / oras.TagN on a remote Repository
+	served := opManifestDesc.Digest.String()
+	for _, base := range bases {
+		if !baseJudged(base) || strings.HasSuffix(base.Registry, ":") {
+			continue
+		}
+		b := base.Registry + "/" + base.Repository
+		for i := 0; i < run.Scale(600, 10000); i++ {
+			type form struct{ in, want string }
+			mk := func(tag, dg string) form {
+				return common.Pick(r, []form{{tag, tag}, {dg, dg}, {tag + "@" + dg, dg}, {b + ":" + tag, tag}, {b + "@" + dg, dg}, {b + ":" + tag + "@" + dg, dg}})
+			}
+			tags := []string{"v1", "latest", "A.b-c_d", strings.Repeat("x", 128)}
+			srcDg := served
+			if r.Chance(1, 4) {
+				srcDg = randDigestValid(r)
+			}
+			src := mk(common.Pick(r, tags), srcDg)
+			n := 1 + r.Intn(3)
+			dsts, wants := make([]string, n), make([]string, n)
+			known := true
+			for k := range dsts {
+				f := mk(common.Pick(r, tags), common.Pick(r, []string{served, randDigestValid(r)}))
+				dsts[k], wants[k] = f.in, f.want
+			}
+			wantSrc := src.want
+			switch r.Intn(6) {
+			case 0: // an arbitrary / foreign / malformed source: correspondence + slot only
+				src.in, wantSrc = common.Pick(r, []string{otherPath(r, base), randJunk(r), mutate(r, src.in), ""}), ""
+			case 1: // a refused destination somewhere: everything after it must not be sent
+				k := r.Intn(n)
+				dsts[k] = common.Pick(r, []string{otherPath(r, base), "a b", "", "v1@", mutate(r, dsts[k])})
+				known = false
+			}
+			if !known {
+				wantSrc = ""
+			}
+			orasTagCase(base, r.Bool(), src.in, dsts, wantSrc, wants)
+		}
+	}
+
+	// constructors and the Registry's own requests
+	for i := 0; i < run.Scale(6000, 100000); i++ {
+		s := randomValid(r)
+		for k := r.Intn(3); k > 0; k-- {
+			s = mutate(r, s)
+		}
+		newRepositoryCase(s)
+		name := randRegistry(r)
+		if r.Bool() {
+			name = common.Pick(r, []string{"localhost:5000", "docker.io", "registry.example.com", "[::1]:5000", "UP.example"})
+		}
+		sub := common.Pick(r, []string{"a", "library/x", "a__b/c.d", "Up", "a//b", "", "a:b", "a@b", "x-y/z", "-a"})
+		registryRepositoryCase(name, sub)
+	}
+	for _, name := range []string{"localhost:5000", "docker.io", "registry.example.com", "127.0.0.1:443", "[::1]:5000", "UP.example"} {
+		for i := 0; i < run.Scale(300, 5000); i++ {
+			regOpCase(name, common.Pick(r, []string{"rping", "rcatalog"}), r.Bool(), common.Pick(r, lasts), common.Pick(r, []int{0, 0, -1, 1, 50}))
+		}
+	}
+
 	// URL builders on accepted references
 	for i := 0; i < run.Scale(8000, 100000); i++ {
 		ref, err := registry.ParseReference(randomValid(r))
@@ -488,10 +620,10 @@ func main() {
 // broken run (layer R), not a pass.  The floors are far below what every seed produces.
 func coverageFloors() {
 	floors := map[string]int{
-		"constructed": 20000, "constructed_accept": 5000, "parse_ok": 2000, "parse_judged_accept": 1500, "parse_judged_reject": 50000, "repo_ok": 2000, "repo_err": 5000,
+		"validate_ok": 300, "registry": 100000, "registry_ok": 3000, "registry_ok_bracket": 200, "constructed": 20000, "constructed_accept": 5000, "parse_ok": 2000, "parse_judged_accept": 1500, "parse_judged_reject": 50000, "repo_ok": 2000, "repo_err": 5000,
 		"repo_other_path_rejected": 3000, "component_repo_ok": 5000, "component_digest_ok": 3000, "component_tag_ok": 500,
 		"op_mresolve": 500, "op_mfetchref": 500, "op_tag": 500, "op_pushref": 500, "op_bresolve": 500, "op_bfetchref": 500,
-		"op_sent": 3000, "op_refused": 3000, "op_ground_truth": 500,
+		"oras_tag": 2000, "oras_tag_put": 1000, "oras_tag_ground_truth": 1000, "newrepo_ok": 500, "newregistry_ok": 1000, "registry_repository_ok": 300, "regop_rping": 300, "regop_rcatalog": 300, "descop_judged": 3000, "descop_dmfetch": 300, "descop_dmdelete": 300, "descop_dbfetch": 300, "descop_dbdelete": 300, "descop_dreferrers": 300, "descop_dmount": 300, "descop_dbpush": 300, "descop_dtags": 300, "op_sent": 3000, "op_refused": 3000, "op_ground_truth": 500,
 		"url_manifest": 100, "url_blob": 100, "url_referrers": 100, "url_taglist": 100, "url_upload": 100, "url_base": 100, "url_catalog": 100, "url_repobase": 100,
 		"url_query_referrers": 100, "url_query_mount": 100,
 	}
@@ -522,6 +654,26 @@ func replay(path string) {
 			repoCase(registry.Reference{Registry: c["registry"], Repository: c["repository"], Reference: c["basereference"]}, c["input"])
 		case "V":
 			componentCase(c["kind"], c["input"])
+		case "D":
+			n, _ := strconv.Atoi(c["n"])
+			for v := 0; v <= 4; v += 4 {
+				forcedVariant = v
+				descOpCase(registry.Reference{Registry: c["registry"], Repository: c["repository"]}, c["kind"], c["plain"] == "true", c["reference"], c["input"], n)
+			}
+			forcedVariant = -1
+		case "T":
+			orasTagCase(registry.Reference{Registry: c["registry"], Repository: c["repository"]}, c["plain"] == "true", c["input"], strings.Split(c["dsts"], "\x00"), "", nil)
+		case "N":
+			if c["kind"] == "repo" {
+				newRepositoryCase(c["input"])
+			} else {
+				registryRepositoryCase(c["input"], c["reference"])
+			}
+		case "E":
+			n, _ := strconv.Atoi(c["n"])
+			regOpCase(c["registry"], c["kind"], c["plain"] == "true", c["input"], n)
+		case "G":
+			registryCase(c["input"])
 		case "F":
 			formatCase(registry.Reference{Registry: c["registry"], Repository: c["repository"], Reference: c["reference"]})
 		case "Q":
